@@ -1202,7 +1202,11 @@ func (c *compiler) evalIndexCallee(rv reflect.Value, node *ast.IndexExpression) 
 	//If key doesn't contain "." this means we got person[0].Name[0]
 	//If key does contain "." then indexed field that needs to be accessed will be set in Node.left and Node.Callee
 	key := node.Left.String()
-	if strings.Contains(key, ".") {
+	if root := calleeRoot(node.Callee); root != nil {
+		// the rest of the path refers to the indexed value by the name the
+		// parser put at the root of its receiver chain
+		key = root.Value
+	} else if strings.Contains(key, ".") {
 		ggg := strings.Split(key, ".")
 		callee := node.Callee.String()
 
@@ -1231,6 +1235,32 @@ func (c *compiler) evalIndexCallee(rv reflect.Value, node *ast.IndexExpression) 
 	}
 
 	return vvs, nil
+}
+
+// calleeRoot returns the identifier at the root of the receiver chain of
+// the expression that follows an index: c in a[i].c.d, a[i].c[j], a[i].c.d().
+func calleeRoot(e ast.Expression) *ast.Identifier {
+	switch t := e.(type) {
+	case *ast.Identifier:
+		if t == nil {
+			return nil
+		}
+		for t.Callee != nil {
+			t = t.Callee
+		}
+		return t
+	case *ast.IndexExpression:
+		if t == nil {
+			return nil
+		}
+		return calleeRoot(t.Left)
+	case *ast.CallExpression:
+		if t == nil || t.Callee == nil {
+			return nil
+		}
+		return calleeRoot(t.Callee)
+	}
+	return nil
 }
 
 func unsafeGetBytes(s string) []byte {
